@@ -115,22 +115,57 @@ def Op.isLimit : Op α κ β → Bool
 
 abbrev Stage (α κ β : Type) := Op α κ β × St α κ β
 
+/-- the behaviours of the pipeline layer that differ between the code before and after its
+repairs (each `true` = the old behaviour) -/
+structure PipeQ where
+  /-- `push_through` returns at once when an intermediate operator answers `false`, dropping what
+  that call put into the collector -/
+  drop : Bool
+  /-- pipeline breakers emit their whole result as ONE chunk in `finalize` -/
+  oneChunk : Bool
+  /-- `compute_chunk_size` may return 0 -/
+  zeroChunk : Bool
+  /-- `DEFAULT_CHUNK_SIZE` -/
+  cap : Nat := 2048
+
+/-- `SortOperator::next` / `emit_rows`: `size` rows per chunk -/
+def rechunk (size : Nat) : Nat → List α → List (List α)
+  | 0, _ => []
+  | fuel + 1, rows => if rows.isEmpty then [] else rows.take size :: rechunk size fuel (rows.drop size)
+
+def rechunkAll (size : Nat) (rows : List α) : List (List α) := rechunk size rows.length rows
+
+def single (rows : List α) : List (List α) := if rows.isEmpty then [] else [rows]
+
+/-- the chunks `finalize(sink)` hands to its sink: sort and the materializing distinct emit through
+`emit_rows` (chunks of the standard size; one chunk in the old code), the aggregates one chunk -/
+def Op.finalizeChunks (pq : PipeQ) : Op α κ β → St α κ β → List (List α)
+  | .distinctMat key, st =>
+    if pq.oneChunk then single ((Op.distinctMat (β := β) key).finalize st)
+    else rechunkAll pq.cap ((Op.distinctMat (β := β) key).finalize st)
+  | .sort le, st =>
+    if pq.oneChunk then single ((Op.sort (κ := κ) (β := β) le).finalize st)
+    else rechunkAll pq.cap ((Op.sort (κ := κ) (β := β) le).finalize st)
+  | op, st => single (op.finalize st)
+
 /-- `Pipeline::push_through` / `push_through_from`: new operator states, what reaches the real
-sink, and the returned flag. An intermediate operator pushes into a `ChunkCollector`; when it
-returns `false` **or** collected nothing the function returns at once — whatever the collector
-holds at that moment is dropped. -/
-def pushThrough : List (Stage α κ β) → List α → List (Stage α κ β) × List α × Bool
+sink, and the returned flag. An intermediate operator pushes into a `ChunkCollector`; what it
+collected travels on through the remaining operators and the flags are combined. (Old code,
+`pq.drop`: when the operator answered `false` the function returned at once and the collector's
+content was lost.) -/
+def pushThrough (pq : PipeQ) : List (Stage α κ β) → List α → List (Stage α κ β) × List α × Bool
   | [], c => ([], c, true)
   | (op, st) :: rest, c =>
     if rest.isEmpty then ([(op, (op.push st c).1)], (op.push st c).2.1, (op.push st c).2.2)
-    else if !(op.push st c).2.2 || (op.push st c).2.1.isEmpty then
+    else if (op.push st c).2.1.isEmpty || (pq.drop && !(op.push st c).2.2) then
       ((op, (op.push st c).1) :: rest, [], (op.push st c).2.2)
     else
-      ((op, (op.push st c).1) :: (pushThrough rest (op.push st c).2.1).1,
-        (pushThrough rest (op.push st c).2.1).2.1, (pushThrough rest (op.push st c).2.1).2.2)
+      ((op, (op.push st c).1) :: (pushThrough pq rest (op.push st c).2.1).1,
+        (pushThrough pq rest (op.push st c).2.1).2.1,
+        (op.push st c).2.2 && (pushThrough pq rest (op.push st c).2.1).2.2)
 
-theorem pushThrough_length (sg : List (Stage α κ β)) (c : List α) :
-    (pushThrough sg c).1.length = sg.length := by
+theorem pushThrough_length (pq : PipeQ) (sg : List (Stage α κ β)) (c : List α) :
+    (pushThrough pq sg c).1.length = sg.length := by
   induction sg generalizing c with
   | nil => rfl
   | cons s rest ih =>
@@ -141,31 +176,44 @@ theorem pushThrough_length (sg : List (Stage α κ β)) (c : List α) :
     · split <;> simp [ih]
 
 /-- the loop of `Pipeline::execute`: chunks are pushed until one push returns `false` -/
-def pushAll : List (Stage α κ β) → List (List α) → List (Stage α κ β) × List α
+def pushAll (pq : PipeQ) : List (Stage α κ β) → List (List α) → List (Stage α κ β) × List α
   | sg, [] => (sg, [])
   | sg, c :: cs =>
-    if (pushThrough sg c).2.2 then
-      ((pushAll (pushThrough sg c).1 cs).1, (pushThrough sg c).2.1 ++ (pushAll (pushThrough sg c).1 cs).2)
-    else ((pushThrough sg c).1, (pushThrough sg c).2.1)
+    if (pushThrough pq sg c).2.2 then
+      ((pushAll pq (pushThrough pq sg c).1 cs).1,
+        (pushThrough pq sg c).2.1 ++ (pushAll pq (pushThrough pq sg c).1 cs).2)
+    else ((pushThrough pq sg c).1, (pushThrough pq sg c).2.1)
 
-/-- `Pipeline::finalize_all`: operator `i` finalizes into a collector, the collected chunk is
+/-- chunks pushed one after the other, the returned flags ignored (`finalize_all`) -/
+def pushChunks (pq : PipeQ) : List (Stage α κ β) → List (List α) → List (Stage α κ β) × List α
+  | sg, [] => (sg, [])
+  | sg, c :: cs =>
+    ((pushChunks pq (pushThrough pq sg c).1 cs).1,
+      (pushThrough pq sg c).2.1 ++ (pushChunks pq (pushThrough pq sg c).1 cs).2)
+
+theorem pushChunks_length (pq : PipeQ) (sg : List (Stage α κ β)) (cs : List (List α)) :
+    (pushChunks pq sg cs).1.length = sg.length := by
+  induction cs generalizing sg with
+  | nil => rfl
+  | cons c cs ih => simp [pushChunks, ih, pushThrough_length]
+
+/-- `Pipeline::finalize_all`: operator `i` finalizes into a collector, every collected chunk is
 pushed through operators `i+1..`, the returned flags are ignored. -/
-def finalizeAll : List (Stage α κ β) → List α
+def finalizeAll (pq : PipeQ) : List (Stage α κ β) → List α
   | [] => []
   | (op, st) :: rest =>
-    if rest.isEmpty then op.finalize st
-    else if (op.finalize st).isEmpty then finalizeAll rest
-    else (pushThrough rest (op.finalize st)).2.1 ++ finalizeAll (pushThrough rest (op.finalize st)).1
+    if rest.isEmpty then (op.finalizeChunks pq st).flatten
+    else (pushChunks pq rest (op.finalizeChunks pq st)).2 ++
+      finalizeAll pq (pushChunks pq rest (op.finalizeChunks pq st)).1
 termination_by sg => sg.length
 decreasing_by
-  · simp
-  · simp [pushThrough_length]
+  simp [pushChunks_length]
 
 def initStages (ops : List (Op α κ β)) : List (Stage α κ β) := ops.map (fun o => (o, St.empty))
 
 /-- `Pipeline::execute` over a source that yields `chunks`: everything the sink receives -/
-def run (ops : List (Op α κ β)) (chunks : List (List α)) : List α :=
-  (pushAll (initStages ops) chunks).2 ++ finalizeAll (pushAll (initStages ops) chunks).1
+def run (pq : PipeQ) (ops : List (Op α κ β)) (chunks : List (List α)) : List α :=
+  (pushAll pq (initStages ops) chunks).2 ++ finalizeAll pq (pushAll pq (initStages ops) chunks).1
 
 /-! ### chunk size hints (`compute_chunk_size`) -/
 
@@ -175,23 +223,27 @@ def Op.hintSize : Op α κ β → Nat → Nat
   | .skipLimit _ n, size => if n < 256 then min size n else if n < 1000 then min size 512 else size
   | _, size => size
 
-def computeChunkSize (ops : List (Op α κ β)) : Nat := ops.foldl (fun s o => o.hintSize s) 2048
+/-- at least 1 since the repair (LIMIT 0 hints "at most 0") -/
+def computeChunkSize (pq : PipeQ) (ops : List (Op α κ β)) : Nat :=
+  if pq.zeroChunk then ops.foldl (fun s o => o.hintSize s) pq.cap
+  else max (ops.foldl (fun s o => o.hintSize s) pq.cap) 1
 
 /-- `VectorSource::next_chunk(size)` iterated, `size > 0` -/
 def chunksOf (size : Nat) : Nat → List α → List (List α)
   | 0, _ => []
   | fuel + 1, rows => if rows.isEmpty then [] else rows.take size :: chunksOf size fuel (rows.drop size)
 
-/-- Outcome of `Pipeline::execute` over a `VectorSource`. With a computed chunk size of 0 the
-source hands out empty chunks for ever; only a saturated limit in FIRST position stops that. -/
-def runVector (ops : List (Op α κ β)) (rows : List α) : Option (List α) :=
-  let size := computeChunkSize ops
+/-- Outcome of `Pipeline::execute` over a `VectorSource`. With a computed chunk size of 0 (old
+code) the source hands out empty chunks for ever; only a saturated limit in FIRST position
+stops that. -/
+def runVector (pq : PipeQ) (ops : List (Op α κ β)) (rows : List α) : Option (List α) :=
+  let size := computeChunkSize pq ops
   if size = 0 ∧ ¬ rows.isEmpty then
     match ops with
-    | .limit 0 :: _ => some (run ops [[]])
-    | .skipLimit _ 0 :: _ => some (run ops [[]])
+    | .limit 0 :: _ => some (run pq ops [[]])
+    | .skipLimit _ 0 :: _ => some (run pq ops [[]])
     | _ => none                                   -- never returns
-  else some (run ops (chunksOf size rows.length rows))
+  else some (run pq ops (chunksOf size rows.length rows))
 
 /-! ### what an operator does to a stream (used by the theorems and as the repaired pipeline) -/
 
@@ -256,13 +308,6 @@ def limitOnlyLast : List (Op α κ β) → Bool
 /-! ## B. pull operators (child = list of chunks, operator = list of chunks) -/
 
 def dropEmpty (cs : List (List α)) : List (List α) := cs.filter (fun c => !c.isEmpty)
-
-/-- `SortOperator::next`: 2048 rows per output chunk -/
-def rechunk (size : Nat) : Nat → List α → List (List α)
-  | 0, _ => []
-  | fuel + 1, rows => if rows.isEmpty then [] else rows.take size :: rechunk size fuel (rows.drop size)
-
-def rechunkAll (size : Nat) (rows : List α) : List (List α) := rechunk size rows.length rows
 
 /-- one pull operator over its child's chunk list. `cap` = `DataChunkBuilder` capacity (2048).
 `FilterOperator` skips chunks in which nothing passes; `HashAggregateOperator` keeps its groups
@@ -361,6 +406,24 @@ def refPred (col : Nat) (c : Cmp) (k : Val) (r : Row) : Bool :=
   | none => false
   | some v => cmpHolds c (refEq v k) (refCmpVals v k)
 
+/-- comparison with the two switches in which the push and the pull predicate differ(ed):
+`coerce` = integers and floats compare numerically, `boolOrd` = booleans are ordered -/
+def eqWith (coerce : Bool) (a b : Val) : Bool := if coerce then refEq a b else valEq a b
+
+def cmpValsWith (coerce boolOrd : Bool) : Val → Val → Option Ordering
+  | .int a, .int b => some (compare a b)
+  | .flt a, .flt b => partialCmp a b
+  | .int a, .flt b => if coerce then partialCmp (i64ToF64 a) b else none
+  | .flt a, .int b => if coerce then partialCmp a (i64ToF64 b) else none
+  | .str a, .str b => some (cmpBytes a b)
+  | .bool a, .bool b => if boolOrd then some (compare a.toNat b.toNat) else none
+  | _, _ => none
+
+def predWith (coerce boolOrd : Bool) (col : Nat) (c : Cmp) (k : Val) (r : Row) : Bool :=
+  match r[col]? with
+  | none => false
+  | some v => cmpHolds c (eqWith coerce v k) (cmpValsWith coerce boolOrd v k)
+
 /-! ### projection expressions (`ColumnExpr`, `ConstantExpr`, `BinaryExpr`) -/
 
 inductive Arith where | add | sub | mul | div | mod
@@ -376,15 +439,20 @@ def wrap64 (x : Int) : Int := (x + 2 ^ 63) % 2 ^ 64 - 2 ^ 63
 
 def i64Min : Int := -(2 ^ 63)
 
-/-- integer branch of `BinaryExpr::evaluate`; `none` = the process panics (`i64::MIN / -1`,
-`i64::MIN % -1`) -/
-def arithInt (op : Arith) (l r : Int) : Option Val :=
+/-- integer branch of `BinaryExpr::evaluate`: `checked_div` / `checked_rem`, NULL when there is no
+result. `none` = the process panics: the old code (`panics`) evaluated `i64::MIN / -1` and
+`i64::MIN % -1` with the plain operators. -/
+def arithInt (panics : Bool) (op : Arith) (l r : Int) : Option Val :=
   match op with
   | .add => some (.int (wrap64 (l + r)))
   | .sub => some (.int (wrap64 (l - r)))
   | .mul => some (.int (wrap64 (l * r)))
-  | .div => if r = 0 then some .null else if l = i64Min ∧ r = -1 then none else some (.int (Int.tdiv l r))
-  | .mod => if r = 0 then some .null else if l = i64Min ∧ r = -1 then none else some (.int (Int.tmod l r))
+  | .div => if r = 0 then some .null
+            else if l = i64Min ∧ r = -1 then (if panics then none else some .null)
+            else some (.int (Int.tdiv l r))
+  | .mod => if r = 0 then some .null
+            else if l = i64Min ∧ r = -1 then (if panics then none else some .null)
+            else some (.int (Int.tmod l r))
 
 /-- `evaluate`; float arithmetic is not modelled (never generated): it yields NULL here -/
 def Ex.eval : Ex → Row → Val
@@ -392,7 +460,7 @@ def Ex.eval : Ex → Row → Val
   | .const v, _ => v
   | .bin op l r, row =>
     match l.eval row, r.eval row with
-    | .int a, .int b => (arithInt op a b).getD .null
+    | .int a, .int b => (arithInt false op a b).getD .null
     | _, _ => .null
 
 def projectRow (es : List Ex) (r : Row) : Row := es.map (fun e => e.eval r)
@@ -572,15 +640,34 @@ inductive OpD where
   | agg (gcols : List Nat) (aggs : List AggE)
   deriving Repr
 
-/-- which of the code's deviations from the specification are switched on -/
+/-- which of the code's deviations from the specification are switched on (`true` = the
+behaviour before the repair named in the comment) -/
 structure Quirks where
-  hashKeys : Bool       -- distinct / group keys are per-column hashes
-  pushPred : Bool       -- ColumnPredicate semantics (no numeric coercion, ordered booleans)
-  floatSum : Bool       -- SUM is Float64 / NULL
+  hashKeys : Bool        -- distinct / group keys are per-column hashes        (repaired)
+  predNoCoercion : Bool  -- ColumnPredicate: integers and floats unrelated     (repaired)
+  predBoolOrder : Bool   -- ColumnPredicate: booleans are ordered              (open)
+  floatSum : Bool        -- SUM is Float64 / NULL                              (open)
+  dropOnStop : Bool      -- push_through drops the collector on `false`        (repaired)
+  zeroChunk : Bool       -- compute_chunk_size may return 0                    (repaired)
+  oneChunk : Bool        -- sort / materializing distinct emit one chunk       (repaired)
+  divPanics : Bool       -- i64::MIN / -1 panics                               (repaired)
+  heapTies : Bool        -- k-way merge: ties leave in heap order              (repaired)
+  staleActive : Bool     -- SpillManager keeps counting deleted files          (repaired)
+  leakFiles : Bool       -- PartitionedState cleanup / drop leave files        (repaired)
+  flatRowHash : Bool     -- merge_distinct_results: identity = 64-bit hash     (repaired)
+  physSel : Bool         -- logical positions read as physical ones            (repaired)
   deriving Repr
 
-def Quirks.asIs : Quirks := ⟨true, true, true⟩
-def Quirks.none : Quirks := ⟨false, false, false⟩
+/-- the code before the repairs -/
+def Quirks.asIs : Quirks := ⟨true, true, true, true, true, true, true, true, true, true, true, true, true⟩
+/-- the specification -/
+def Quirks.none : Quirks := ⟨false, false, false, false, false, false, false, false, false, false, false, false, false⟩
+/-- the code as it is now: what the driver runs. Everything is repaired except the order on
+booleans in the push filter and the float / NULL result of the push SUM. -/
+def Quirks.current : Quirks :=
+  { Quirks.none with predBoolOrder := true, floatSum := true }
+
+def Quirks.pipe (q : Quirks) : PipeQ := { drop := q.dropOnStop, oneChunk := q.oneChunk, zeroChunk := q.zeroChunk }
 
 abbrev K := List (List Nat) ⊕ List Val
 
@@ -589,7 +676,7 @@ def rowKey (q : Quirks) (cols : Option (List Nat)) (r : Row) : K :=
 
 /-- the push operator an op-line item denotes -/
 def OpD.toPush (q : Quirks) : OpD → Op Row K GState
-  | .filter col c k => .filter (if q.pushPred then pushPred col c k else refPred col c k)
+  | .filter col c k => .filter (predWith (!q.predNoCoercion) q.predBoolOrder col c k)
   | .project es => .project (projectRow es)
   | .limit n => .limit n
   | .skip n => .skip n
@@ -634,6 +721,39 @@ def xsortPush (le : α → α → Bool) (threshold : Nat) (st : List α × List 
 
 def xsortState (le : α → α → Bool) (threshold : Nat) (chunks : List (List α)) : List α × List (List α) :=
   chunks.foldl (xsortPush le threshold) ([], [])
+
+def popFront : List (List α) → Nat → List (List α)
+  | [], _ => []
+  | r :: rs, 0 => r.tail :: rs
+  | r :: rs, i + 1 => r :: popFront rs i
+
+/-! ### the merge as a specification-level process: "take the head of any run whose head is
+minimal" (what a priority queue guarantees, whatever its tie-breaking) -/
+
+def headOf (runs : List (List α)) (i : Nat) : Option α := (runs[i]?).bind List.head?
+
+def mergeWith (pick : List (List α) → Option Nat) : Nat → List (List α) → List α
+  | 0, _ => []
+  | fuel + 1, runs =>
+    match pick runs with
+    | none => []
+    | some i =>
+      match headOf runs i with
+      | none => []
+      | some x => x :: mergeWith pick fuel (popFront runs i)
+
+/-- first run (lowest index) whose head is minimal -/
+def pickFirstMin (le : α → α → Bool) : List (List α) → Option Nat
+  | [] => none
+  | r :: rs =>
+    match r, pickFirstMin le rs with
+    | [], none => none
+    | [], some j => some (j + 1)
+    | _ :: _, none => some 0
+    | x :: _, some j =>
+      match rs[j]? with
+      | some (y :: _) => if le x y then some 0 else some (j + 1)
+      | _ => some 0
 
 /-! `std::collections::BinaryHeap` as `k_way_merge` uses it. An entry is (row, run index);
 `hle x y` = `x <= y` in the heap's `Ord` = `compare_rows(y.row, x.row) != Greater`. -/
@@ -683,11 +803,6 @@ def heapPop (hle : α × Nat → α × Nat → Bool) (a : Array (α × Nat)) : O
       let (c, pos) := siftDownToBottom hle (b.size + 1) b 0
       some (top, siftUp hle (c.size + 1) c pos)
 
-def popFront : List (List α) → Nat → List (List α)
-  | [], _ => []
-  | r :: rs, 0 => r.tail :: rs
-  | r :: rs, i + 1 => r :: popFront rs i
-
 /-- the merge loop of `k_way_merge` / `merge_sorted_runs`: `runs` are the unread remainders -/
 def heapMergeLoop (hle : α × Nat → α × Nat → Bool) : Nat → Array (α × Nat) → List (List α) → List α
   | 0, _, _ => []
@@ -706,50 +821,30 @@ def heapMerge (cmp : α → α → Ordering) (runs : List (List α)) : List α :
     match ri.1.head? with | some x => heapPush hle h (x, ri.2) | none => h) #[]
   heapMergeLoop hle (runs.flatten.length + 1) init (runs.map List.tail)
 
+/-- the k-way merge of `ExternalSort::k_way_merge` and `parallel::merge_sorted_runs`. Heap entries
+are ordered by the sort keys and, among equal keys, by run number; at most one entry per run is
+in the heap, so the heap's minimum is unique: the head of the leftmost run with a minimal head.
+(Old code, `heapTies`: keys only - ties left in the order the binary heap happened to hold them.) -/
+def kWayMerge (heapTies : Bool) (cmp : α → α → Ordering) (runs : List (List α)) : List α :=
+  if heapTies then heapMerge cmp runs
+  else mergeWith (pickFirstMin (fun a b => cmp a b != .gt)) runs.flatten.length runs
+
 /-- `ExternalSort::merge_all(buffer)` over the runs on disk -/
-def mergeAll (cmp : α → α → Ordering) (runs : List (List α)) (buf : List α) : List α :=
+def mergeAll (heapTies : Bool) (cmp : α → α → Ordering) (runs : List (List α)) (buf : List α) : List α :=
   let le := fun a b => cmp a b != .gt
   if runs.isEmpty then buf.mergeSort le
   else if runs.length = 1 ∧ buf.isEmpty then runs.flatten
-  else heapMerge cmp (if buf.isEmpty then runs else runs ++ [buf.mergeSort le])
+  else kWayMerge heapTies cmp (if buf.isEmpty then runs else runs ++ [buf.mergeSort le])
 
 /-- `SpillableSortPushOperator::finalize` -/
-def xsortRun (cmp : α → α → Ordering) (threshold : Nat) (chunks : List (List α)) : List α :=
+def xsortRun (heapTies : Bool) (cmp : α → α → Ordering) (threshold : Nat) (chunks : List (List α)) : List α :=
   let le := fun a b => cmp a b != .gt
   let st := xsortState le threshold chunks
-  if st.2.isEmpty then st.1.mergeSort le else mergeAll cmp st.2 st.1
+  if st.2.isEmpty then st.1.mergeSort le else mergeAll heapTies cmp st.2 st.1
 
 /-- `parallel::merge_sorted_runs` -/
-def mergeSortedRuns (cmp : α → α → Ordering) (runs : List (List α)) : List α :=
-  if runs.length = 1 then runs.flatten else heapMerge cmp runs
-
-/-! ### the merge as a specification-level process: "take the head of any run whose head is
-minimal" (what a priority queue guarantees, whatever its tie-breaking) -/
-
-def headOf (runs : List (List α)) (i : Nat) : Option α := (runs[i]?).bind List.head?
-
-def mergeWith (pick : List (List α) → Option Nat) : Nat → List (List α) → List α
-  | 0, _ => []
-  | fuel + 1, runs =>
-    match pick runs with
-    | none => []
-    | some i =>
-      match headOf runs i with
-      | none => []
-      | some x => x :: mergeWith pick fuel (popFront runs i)
-
-/-- first run (lowest index) whose head is minimal -/
-def pickFirstMin (le : α → α → Bool) : List (List α) → Option Nat
-  | [] => none
-  | r :: rs =>
-    match r, pickFirstMin le rs with
-    | [], none => none
-    | [], some j => some (j + 1)
-    | _ :: _, none => some 0
-    | x :: _, some j =>
-      match rs[j]? with
-      | some (y :: _) => if le x y then some 0 else some (j + 1)
-      | _ => some 0
+def mergeSortedRuns (heapTies : Bool) (cmp : α → α → Ordering) (runs : List (List α)) : List α :=
+  if runs.length = 1 then runs.flatten else kWayMerge heapTies cmp runs
 
 end Spill
 
@@ -783,9 +878,14 @@ def assocGet (k : Row) : List (Row × Int) → Option Int
   | [] => none
   | (k', v') :: rest => if k' = k then some v' else assocGet k rest
 
-/-- `cleanup()`: the `SpillFile` handles are dropped without `delete()` -/
-def PartSt.cleanup (s : PartSt) : PartSt :=
-  { inMem := true, data := [], file := false, leaked := s.leaked + (if s.file then 1 else 0) }
+/-- `cleanup()` deletes the spill file. (Old code, `leak`: the `SpillFile` handle was dropped
+without `delete()`, the file stayed in the directory.) -/
+def PartSt.cleanup (leak : Bool) (s : PartSt) : PartSt :=
+  { inMem := true, data := [], file := false, leaked := s.leaked + (if leak && s.file then 1 else 0) }
+
+/-- files left in the spill directory when the state is dropped (`Drop` deletes its file now) -/
+def PartSt.leftAtDrop (leak : Bool) (s : PartSt) : Nat :=
+  s.leaked + (if leak && s.file then 1 else 0)
 
 /-- `drain_all()` -/
 def PartSt.drain (s : PartSt) : PartSt × List (Row × Int) :=
@@ -832,5 +932,18 @@ def skipSel {α : Type} (start : Nat) (phys : Array α) (sel : Option (List Nat)
 /-- `DistinctPushOperator::push`: `new` are the physical positions of the new rows -/
 def distinctSel {α : Type} (new : List Nat) (phys : Array α) (sel : Option (List Nat)) : List α :=
   chunkFilter phys sel (fromPredicate (selLen phys sel) (fun i => new.contains i))
+
+/-! ### the repaired operators on a chunk with a selection vector -/
+
+/-- `DataChunk::slice(offset, count)`: counts SELECTED rows -/
+def sliceSel {α : Type} (offset count : Nat) (phys : Array α) (sel : Option (List Nat)) : List α :=
+  ((selRows phys sel).drop offset).take count
+
+/-- `FilterPushOperator::push`: the predicate narrows the existing selection (physical positions) -/
+def filterSelNew {α : Type} (p : α → Bool) (phys : Array α) (sel : Option (List Nat)) : List α :=
+  match sel with
+  | some s => chunkFilter phys sel (s.filter (fun i => match phys[i]? with | some r => p r | none => false))
+  | none => chunkFilter phys none
+      (fromPredicate phys.size (fun i => match phys[i]? with | some r => p r | none => false))
 
 end Grafeo.Push
